@@ -243,13 +243,10 @@ impl TryFrom<&str> for FeelDateTime {
                         if let Ok(min) = min_match.as_str().parse::<u8>() {
                           if let Some(sec_match) = captures.name("seconds") {
                             if let Ok(sec) = sec_match.as_str().parse::<u8>() {
-                              let mut fractional = 0.0;
+                              let mut nanos = 0;
                               if let Some(frac_match) = captures.name("fractional") {
-                                if let Ok(frac) = frac_match.as_str().parse::<f64>() {
-                                  fractional = frac;
-                                }
+                                nanos = fraction_to_nanos(frac_match.as_str());
                               }
-                              let nanos = (fractional * 1e9).trunc() as u64;
                               if is_valid_date(year, month, day) {
                                 let date = FeelDate::new(year, month, day);
                                 if let Some(zone) = FeelZone::from_captures(&captures) {
@@ -427,13 +424,10 @@ fn parse_time_literal(s: &str) -> Result<FeelTime> {
           if let Ok(min) = min_match.as_str().parse::<u8>() {
             if let Some(sec_match) = captures.name("seconds") {
               if let Ok(sec) = sec_match.as_str().parse::<u8>() {
-                let mut fractional = 0.0;
+                let mut nanos = 0;
                 if let Some(frac_match) = captures.name("fractional") {
-                  if let Ok(frac) = frac_match.as_str().parse::<f64>() {
-                    fractional = frac;
-                  }
+                  nanos = fraction_to_nanos(frac_match.as_str());
                 }
-                let nanos = (fractional * 1e9).trunc() as u64;
                 if let Some(zone) = FeelZone::from_captures(&captures) {
                   if is_valid_time(hour, min, sec) {
                     return Ok(FeelTime(hour, min, sec, nanos, zone));
@@ -639,6 +633,17 @@ fn nanoseconds_to_string(nano: u64) -> String {
     }
   }
   nanos.chars().rev().collect()
+}
+
+/// Converts the fractional part of a second, written as a dot followed by decimal digits,
+/// into nanoseconds. Digits beyond the nanosecond precision are truncated.
+fn fraction_to_nanos(fraction: &str) -> u64 {
+  let digits = &fraction[1..];
+  let digits = if digits.len() > 9 { &digits[..9] } else { digits };
+  match digits.parse::<u64>() {
+    Ok(value) => value * 10_u64.pow(9 - digits.len() as u32),
+    Err(_) => 0,
+  }
 }
 
 fn is_valid_time(hour: u8, minute: u8, second: u8) -> bool {
